@@ -12,6 +12,15 @@
 //
 // Part (a) of the check (sequential histories, ../main.go) and the concurrent parts
 // built on top use the same pieces.
+//
+// Use from concurrent scenarios: Boot() once; env := NewEnv(universe); im := env.NewImpl(false)
+// per execution.  Op.Apply only reads harness state for add/pack/get/exist and may run on
+// any goroutine; "mark"/"unmark" push/pop im.Blocks (harness state, not synchronised) — threads
+// should build their blocks up front with im.BuildBlock and call im.MarkBlock / im.UnMarkBlock.
+// The account states of an Env are only read (GetNonce) but AccountDB is not documented as
+// goroutine-safe: give every packing thread its own Env.  Linearisation: for each candidate
+// order, ref := NewRef(u) (or a Clone of the pre-state); the order is admissible iff every
+// ref.Step(op, obs) returns no Finding and ref.Compare(lastOp, im.Dump()) returns none.
 package pool
 
 import (
